@@ -28,11 +28,12 @@ rc, o = sh(f"git apply --check {out}/patch.diff", cwd=wt); log.append(f"git appl
 assert rc == 0, o
 shutil.copy(os.path.join(out, "seed_demo.rs"), os.path.join(wt, "tests", "seed_demo.rs"))
 flag = 'RUSTFLAGS="--cfg pubgrub_verif" ' if "cfg(pubgrub_verif)" in open(os.path.join(out, "seed_demo.rs")).read() else ""
-rc0, o0 = sh(flag + "cargo test --offline --test seed_demo 2>&1 | tail -5", cwd=wt); 
+feat = "--features serde " if 'feature = "serde"' in open(os.path.join(out, "seed_demo.rs")).read() else ""
+rc0, o0 = sh(flag + "cargo test --offline " + feat + "--test seed_demo 2>&1 | tail -5", cwd=wt); 
 demo_without = "test result: ok" in o0
 log.append(f"demo WITHOUT the change: {'passes' if demo_without else 'FAILS'}")
 sh(f"git apply {out}/patch.diff", cwd=wt)
-rc1, o1 = sh(flag + "cargo test --offline --test seed_demo 2>&1 | tail -8", cwd=wt)
+rc1, o1 = sh(flag + "cargo test --offline " + feat + "--test seed_demo 2>&1 | tail -8", cwd=wt)
 demo_with = "test result: ok" in o1 and " 0 passed" not in o1
 demo_without = demo_without and " 0 passed" not in o0
 log.append(f"demo WITH the change: {'passes' if demo_with else 'fails'}")
